@@ -48,13 +48,25 @@ def coq_obligations(ctx: Ctx, files: list[str]) -> None:
             ctx.oblige(f"{f}", False, f, "file missing")
             continue
         ths = core.theorems_in(f)
-        # a Props file fails as a whole; a failing dependency is reported with its own error text
+        # a Props file stops at its first error: theorems before it checked, the one containing the
+        # error line failed, later ones are unchecked (reported once, with the failing theorem)
         err = b.failed.get(f)
         if err and "not built" in err:
             deps = [f"{k}: {v}" for k, v in b.failed.items() if "not built" not in v]
             err = "dependency failed: " + "; ".join(deps)[:800] if deps else err
+        bad_line = None
+        if err:
+            m = re.match(r"line (\d+):", err)
+            bad_line = int(m.group(1)) if m else 0
+        spans = core.theorem_spans(f)
         for t in ths:
-            ctx.oblige(t, err is None, f, err or "")
+            lo, hi = spans.get(t, (0, 0))
+            if err is None or (bad_line and hi < bad_line):
+                ctx.oblige(t, True, f)
+            elif bad_line == 0 or lo <= bad_line <= hi:
+                ctx.oblige(t, False, f, err)
+            else:
+                ctx.obligations.append({"name": t, "file": f, "ok": False, "detail": "unchecked: the file failed at an earlier theorem", "located": True})
         if err is None:
             ass = core.assumptions_of(f)
             for k, v in ass.items():
